@@ -320,7 +320,37 @@ def v_plan(c, ncases, maxdepth, npy, struct):
     return plan + extra
 
 
-def v_stream(c, ncases, maxdepth, npy=0, struct={}, prefix='V', late=False):
+def screen(payload):
+    """worker process: the real code + the exact oracle on one case (all three extraction modes).  Returns ('dense', kind) when the dense
+    expression does not evaluate, ('clean', [(mode, status, nnz, features)]) when nothing needs a verdict, else ('suspicious',)"""
+    try:
+        if payload is None: return ('suspicious',)
+        e, args = pickle.loads(payload)
+        k0, v0 = X.real_eval(e, args)
+        if k0 != 'ok': return ('dense', k0)
+        tol = 0. if is_exact(e) else 1e-9
+        recs = []
+        for mode in ['coo'] + (['csr'] if e.ndim == 2 else []) + ['raw']:
+            kx, ext = extract(e, mode)
+            if kx != 'ok':
+                if mode != 'raw' and kx == 'exception' and 'caught in a loop' in str(ext) or kx == 'hang':
+                    recs.append((mode, 'simplify-nonterminating(C01)', 0, ())); continue
+                if mode == 'raw':
+                    recs.append((mode, 'extract-%s:%s' % (kx, type(ext).__name__), 0, ())); continue
+                return ('suspicious',)
+            kr, parts = real_parts(mode, ext, args)
+            if kr != 'ok': return ('suspicious',)
+            feats = tuple(sorted(features(ext[0]))) if mode == 'coo' else ()
+            if not finite(parts):
+                recs.append((mode, 'real-nonfinite', 0, feats)); continue
+            if py_verdict(mode, parts, tol) is not None: return ('suspicious',)
+            recs.append((mode, 'ok', len(parts[1]), feats))
+        return ('clean', recs)
+    except BaseException:
+        return ('suspicious',)
+
+
+def v_stream(c, ncases, maxdepth, npy=0, struct={}, prefix='V', late=False, pool=None):
     """late: the stream has nothing for Lean (ncases = 0) and does all its work (real extraction, real evaluation, exact recomputation
     oracle) after it has been resumed, i.e. while the Lean driver is busy with the requests of the other streams"""
     if late:
@@ -329,6 +359,7 @@ def v_stream(c, ncases, maxdepth, npy=0, struct={}, prefix='V', late=False):
     cases, reqs, pyonly = [], [], []
     out = collections.Counter()
     hits = collections.Counter()
+    generated = []
     for lean, make in v_plan(c, ncases, maxdepth, npy, struct):
         try:
             e, args, tag, *g = make()
@@ -343,6 +374,33 @@ def v_stream(c, ncases, maxdepth, npy=0, struct={}, prefix='V', late=False):
             for op in tag.split('+')[1:]: out['struct:post-op:' + op] += 1
             tag = tag.split(':')[0]
         out['generated:' + tag] += 1
+        generated.append((lean, e, args, tag))
+    # real-evaluation-only cases are screened in parallel worker processes (pure function of the case: real extraction, real
+    # evaluation, exact oracle); everything that is not plainly clean is re-done below in this process, where the verdicts are made
+    screened = {}
+    nclean = 0
+    if pool is not None:
+        todo = [(i, e, args) for i, (lean, e, args, tag) in enumerate(generated) if not lean]
+        payloads = []
+        for i, e, args in todo:
+            try: payloads.append(pickle.dumps((e, args)))
+            except Exception: payloads.append(None)
+        for (i, e, args), res in zip(todo, pool.imap(screen, payloads, chunksize=4)):
+            screened[i] = res
+    for i, (lean, e, args, tag) in enumerate(generated):
+        res = screened.get(i, ('suspicious',))
+        if res[0] == 'dense':
+            out['dense-not-evaluable:' + res[1]] += 1; continue
+        if res[0] == 'clean':
+            for mode, status, nnz, feats in res[1]:
+                for f in feats: hits['simplified-tree:' + f] += 1
+                if status != 'ok':
+                    out['%s:%s' % (mode, status)] += 1; continue
+                c.case((e.__nutils_hash__, mode), nontrivial=e.ndim > 0 and nnz > 0)
+                out['%s:ndim=%d' % (mode, e.ndim)] += 1; out['%s:real:ok' % mode] += 1
+                if nnz == 0: out[mode + ':nnz=0'] += 1
+                nclean += 1; c.traces += 1
+            continue
         k0, v0 = X.real_eval(e, args)
         if k0 != 'ok':
             out['dense-not-evaluable:' + k0] += 1
@@ -390,7 +448,8 @@ def v_stream(c, ncases, maxdepth, npy=0, struct={}, prefix='V', late=False):
         if a.startswith('bad-request'):
             raise Infra('C05 driver rejected a request: ' + a[:300])
         ans.append(json.loads(a))
-    nsym = nconc = nreal = nspec = nspec_bad = 0
+    nsym = nconc = nspec = nspec_bad = 0
+    nreal = nclean
     none = dict(verdict='not-asked', nnz=-1)
     for case, a1, a2 in list(zip(cases, ans[0::2], ans[1::2])) + [(case, none, none) for case in pyonly]:
         e, args, mode, parts, tol = case['e'], case['args'], case['mode'], case['parts'], case['tol']
@@ -1180,12 +1239,20 @@ def run(c):
         broken = c.build_and_audit(extra_props=['C05Eval'])
     c.log('proofs built and audited')
     quick = c.tier == 'quick'
-    streams = [m_compress(c, 300 if quick else 20000), m_accumulate(c, 100 if quick else 3000), m_unique(c, 60 if quick else 2000),
-               m_assparse(c, 60 if quick else 2000), m_blockpos(c, 30 if quick else 600), m_chunks(c, 150 if quick else 3000), m_selftest(c, 80 if quick else 3000), m_function(c, 25 if quick else 300),
-               v_stream(c, 60 if quick else 1000, 4 if quick else 5),
-               v_stream(c, 0, 4 if quick else 5, 240 if quick else 3000, prefix='S', late=True,
-                        struct=dict(prod=60, orders2=1, inflate=40, loop=50, dag5=40) if quick else dict(prod=800, orders2=4, orders3=2, inflate=800, loop=600, dag5=800))]
-    run_batched(c, streams)
+    # optional (C05_POOL=<n>, default off: on the loaded 16-core development machine it gave no gain in wall time): n worker processes
+    # pre-screen the real-evaluation-only stream; forked here, before the thread that waits for the Lean driver exists
+    import multiprocessing
+    pool = multiprocessing.get_context('fork').Pool(int(os.environ['C05_POOL'])) if os.environ.get('C05_POOL', '0') not in ('', '0') else None
+    try:
+        streams = [m_compress(c, 300 if quick else 20000), m_accumulate(c, 100 if quick else 3000), m_unique(c, 60 if quick else 2000),
+                   m_assparse(c, 60 if quick else 2000), m_blockpos(c, 30 if quick else 600), m_chunks(c, 150 if quick else 3000), m_selftest(c, 80 if quick else 3000),
+                   m_function(c, 25 if quick else 300), v_stream(c, 60 if quick else 1000, 4 if quick else 5),
+                   v_stream(c, 0, 4 if quick else 5, 240 if quick else 3000, prefix='S', late=True, pool=pool,
+                            struct=dict(prod=60, orders2=1, inflate=40, loop=50, dag5=40) if quick else dict(prod=800, orders2=4, orders3=2, inflate=800, loop=600, dag5=800))]
+        run_batched(c, streams)
+    finally:
+        if pool is not None:
+            pool.terminate(); pool.join()
     rerun_known(c)
     for b in broken:
         c.broken_no_input('proof', b, dict(detail=b))
